@@ -16,6 +16,7 @@ type client struct {
 	r       *bufio.Reader
 	inMulti bool
 	nonce   int
+	dead    bool // a reply timed out or the framing broke: nothing sensible can be read any more
 }
 
 // tok is one RESP token (an array header is a token of its own: handlers write it separately)
@@ -222,6 +223,9 @@ func (st *state) respOp(toks []string) (string, string) {
 		return "bad-op", ""
 	}
 	now := time.Now().UnixMilli()
+	if cl.dead {
+		return "!DEAD", fmt.Sprintf(" now=%d", now)
+	}
 	args := mustArgs(toks[2:])
 	name := strings.ToUpper(string(args[0]))
 	payload := encodeCommand(args)
@@ -240,6 +244,8 @@ func (st *state) respOp(toks []string) (string, string) {
 	for {
 		t, err := readTok(cl.r)
 		if err != nil {
+			cl.dead = true
+			cl.c.Close()
 			return strings.Join(canonical(name, got), " ") + " !" + errKind(err), fmt.Sprintf(" now=%d", now)
 		}
 		if useMarker {
